@@ -109,3 +109,28 @@ package referenceserver
 //@   pure
 //@   ensures result == isDigits(s, 0)
 //@   loop 0: invariant 0 <= i && i <= len(s) && (forall k int :: 0 <= k && k < i ==> 48 <= s[k] && s[k] <= 57)
+
+//@ func enumValue
+//@   requires wfFeedback(feedback)
+//@   modifies fbCount
+//@   ensures !result_1 ==> fbCount[feedback] > old(fbCount[feedback])
+
+// No feedback exactly when the X-Expect-Tls header is a boolean, agrees with whether the
+// request came over TLS, and - over TLS - the expected client certificate name equals the
+// presented one ("" when none was presented); repeated expectation headers are flagged.
+//@ func checkTLS
+//@   requires wfFeedback(feedback) && req != nil
+//@   requires req.TLS != nil ==> (forall i int :: 0 <= i && i < len(req.TLS.PeerCertificates) ==> req.TLS.PeerCertificates[i] != nil)
+//@   modifies fbCount
+//@   ensures (fbCount[feedback] == old(fbCount[feedback])) ==
+//@     (!hdrDup(req.Header, "X-Expect-Tls") && parseBoolOk(hdrVal(req.Header, "X-Expect-Tls")) &&
+//@      parseBoolVal(hdrVal(req.Header, "X-Expect-Tls")) == (req.TLS != nil) &&
+//@      (req.TLS == nil || (!hdrDup(req.Header, "X-Expect-Client-Cert") &&
+//@         hdrVal(req.Header, "X-Expect-Client-Cert") == (len(req.TLS.PeerCertificates) > 0 ? req.TLS.PeerCertificates[0].Subject.CommonName : ""))))
+
+//@ func checkCodec
+//@   requires wfFeedback(feedback) && req != nil && req.URL != nil && req.Body != nil
+//@   modifies fbCount
+//@   ensures @post req.Method != "GET" && (expected == 1 || expected == 2) && hdrVal(req.Header, "Content-Type") == "application/grpc" ==>
+//@       (fbCount[feedback] == old(fbCount[feedback])) == (expected == 1 && !hdrDup(req.Header, "Content-Type"))
+//@   ensures @invalid expected != 1 && expected != 2 ==> fbCount[feedback] > old(fbCount[feedback])
